@@ -33,6 +33,7 @@ Inductive err :=
 | ErrBxCorrupt (off : N)       (* basex.CorruptInputError *)
 | ErrBxLength                  (* basex.ErrInvalidEncodingLength *)
 | ErrIO                        (* an error of the underlying reader/writer *)
+| ErrPunctuated                (* the punctuated reader's internal marker, which framedDecoderStream lets escape after the footer *)
 | Unmodelled                   (* input outside the modelled subset of go-codec *)
 | Panic (site : N).            (* the Go code would panic here *)
 
